@@ -61,6 +61,38 @@ def find_option_readers(prog):
     return readers
 
 
+# crate functions that end the process with the status they are given: path -> index of the status argument
+EXIT_WRAPPERS = {}
+
+
+def find_exit_wrappers(prog):
+    out = {}
+    for q, b in prog.bodies.items():
+        if b.get("crate") != "svgbob_cli" or "{closure" in q or b["locals"][0]["ty"] != "!":
+            continue
+        ex = Expr(prog, q)
+        exits = [t for _, t in prog.calls(q) if Program.callee_name(t) == "std::process::exit"]
+        if len(exits) == 1:
+            a = strip(ex.operand(exits[0]["args"][0]))
+            if a[0] == "param" and not a[2]:
+                out[q] = a[1] - 1
+    return out
+
+
+def exit_status(t):
+    """None if t does not end the process; else the constant status, or 'nonconst'"""
+    if t["k"] != "call":
+        return None
+    n = Program.callee_name(t)
+    if n == "std::process::exit":
+        c = op_const(t["args"][0])
+        return c.get("int") if c and "int" in c else "nonconst"
+    if n in EXIT_WRAPPERS and EXIT_WRAPPERS[n] < len(t["args"]):
+        c = op_const(t["args"][EXIT_WRAPPERS[n]])
+        return c.get("int") if c and "int" in c else "nonconst"
+    return None
+
+
 def value_of_names(e):
     """names passed to value_of / parse_value_of (or another option-reading helper of the crate) inside e"""
     out = []
@@ -91,6 +123,8 @@ def run(run):
     if inl:
         run.note("main analysed with its single-use helpers inlined: %s" % ", ".join(short(x) for x in inl))
     run.record("inlined_helpers", [short(x) for x in inl])
+    EXIT_WRAPPERS.clear()
+    EXIT_WRAPPERS.update(find_exit_wrappers(prog))
     OPTION_READERS.clear()
     OPTION_READERS.update(find_option_readers(prog))
     b = prog.bodies[MAIN]
@@ -295,17 +329,30 @@ def run(run):
     run.floor("C19.X3", "options_stored", len(consumed), 7)
     # ---------------- X4 truthful exit
     exits = []
-    for p in [q for q in prog.bodies if prog.bodies[q].get("crate") == "svgbob_cli"]:
+    for p in [q for q in prog.bodies if prog.bodies[q].get("crate") == "svgbob_cli" and q not in EXIT_WRAPPERS]:
         for bid, t in prog.calls(p):
-            if Program.callee_name(t) == "std::process::exit":
+            if exit_status(t) is not None:
                 exits.append((p, bid, t))
-    run.floor("C19.X4", "exit_sites", len(exits), 4)
+    run.floor("C19.X4", "exit_sites", len(exits), 3)
     for p, bid, t in exits:
-        c = op_const(t["args"][0])
-        code = c.get("int") if c else None
+        st_ = exit_status(t)
+        code = st_ if isinstance(st_, int) else None
         gs = guards(prog, p, bid, direct=True)
         errish = False
         okish = False
+        # an exit in a closure that a combinator runs only on the failure of its receiver (`.unwrap_or_else(|e| fail(..))`)
+        if "{closure" in p and not gs:
+            parent = p.rsplit("::{closure", 1)[0]
+            if parent in prog.bodies:
+                pex_ = Expr(prog, parent)
+                for _, ct in prog.calls(parent):
+                    if re.search(r"^core::(result::Result::<T, E>|option::Option::<T>)::(unwrap_or_else|or_else|map_err)$", Program.callee_name(ct)):
+                        for a_ in ct["args"][1:]:
+                            av = strip(pex_.operand(a_))
+                            if av[0] == "agg" and av[1] == "closure:" + p:
+                                recv = pex_.operand(ct["args"][0])
+                                if mentions(recv, lambda z: z[0] == "call" and re.search(r"File::open|File::create|fs::write|write_all$|::parse$|read_to_string|create_dir", z[1])):
+                                    errish = True
         for cond, tk, sw in gs:
             cs = strip(cond)
             if cs[0] == "discr":
@@ -355,10 +402,9 @@ def run(run):
                     verdict = None
                     for rb in sorted(only_err):
                         tt = pb["blocks"][rb]["term"]
-                        if tt["k"] == "call" and Program.callee_name(tt) == "std::process::exit":
-                            cc = op_const(tt["args"][0])
-                            if cc and cc.get("int"):
-                                verdict = "exits %d" % cc["int"]
+                        es_ = exit_status(tt)
+                        if isinstance(es_, int) and es_ != 0:
+                            verdict = "exits %d" % es_
                         if tt["k"] == "call" and re.search(r"FromResidual<.*>>::from_residual$", Program.callee_name(tt)):
                             verdict = "propagated with ?"
                     if verdict is None:
@@ -451,10 +497,19 @@ def x8(run):
                             reg -= cfg.reachable_from(o, removed=[blk["id"]])
                         for rb in reg:
                             tt = pb["blocks"][rb]["term"]
-                            if tt["k"] == "call" and Program.callee_name(tt) == "std::process::exit":
-                                cc = op_const(tt["args"][0])
-                                if cc and cc.get("int"):
-                                    handled = "the error arm exits %d" % cc["int"]
+                            es_ = exit_status(tt)
+                            if isinstance(es_, int) and es_ != 0:
+                                handled = "the error arm exits %d" % es_
+            if handled is None and not t["dst"]["p"]:
+                # `.parse().unwrap_or_else(|e| <exit non-zero>)`
+                for u, idx in prog.slicer(p).forward_uses(t["dst"]["l"]):
+                    if u.get("k") == "call" and re.search(r"^core::result::Result::<T, E>::unwrap_or_else$", Program.callee_name(u)) and idx == 0 and len(u["args"]) == 2:
+                        cl_, _ = closure_of(strip(pex.operand(u["args"][1])))
+                        if cl_ in prog.bodies:
+                            for _, t3 in prog.calls(cl_):
+                                es_ = exit_status(t3)
+                                if isinstance(es_, int) and es_ != 0:
+                                    handled = "the error is handed to a closure that exits %d" % es_
             if handled is None and pb["locals"][0]["ty"].startswith("core::result::Result"):
                 if any(mentions(r, lambda z: z[0] == "call" and len(z) > 3 and z[3] == bid and z[1] == Program.callee_name(t)) for r in pex.returns()):
                     handled = "the Result is returned to the caller"
@@ -502,10 +557,8 @@ def x7(run, fn):
     cli = [q for q in prog.bodies if prog.bodies[q].get("crate") == "svgbob_cli"]
 
     def nonzero_exit(t):
-        if t["k"] == "call" and Program.callee_name(t) == "std::process::exit":
-            c = op_const(t["args"][0])
-            return not (c and c.get("int") == 0)
-        return False
+        es_ = exit_status(t)
+        return es_ is not None and es_ != 0
 
     E = prog.edges()
     failing = {q for q in cli if any(nonzero_exit(t) for _, t in prog.calls(q))}
